@@ -65,7 +65,7 @@ Fixpoint abst (l : leaf) : leaf :=
   match l with
   | Hmac k (Plain c) => Hmac k (Plain c)
   | Hmac k Redacted => Hmac k Redacted
-  | Hmac k Opaque => Hmac k Opaque
+  | Hmac _ Opaque => Hmac 0 Opaque      (* ... nor over the rendering of a container a pointer tag names, nor over a text of an earlier key generation *)
   | Hmac _ _ => Hmac 0 Opaque
   | Enc k l' => Enc k (abst l')
   | _ => l
